@@ -729,7 +729,13 @@ def random(expression: exp.Expression) -> exp.Expression:
     Snowflake random() is an signed 64 bit integer.
     Duckdb random() is a double between 0 and 1 and uses setseed() to set the seed.
     """
-    if isinstance(expression, exp.Select) and (rand := expression.find(exp.Rand)):
+    # every random() of the select (those of its subqueries when their turn comes) is converted; the first one decides the seed
+    rands = (
+        [r for r in expression.find_all(exp.Rand) if r.find_ancestor(exp.Select) is expression]
+        if isinstance(expression, exp.Select)
+        else []
+    )
+    for i, rand in enumerate(rands):
         # shift result to between min and max signed 64bit integer
         new_rand = exp.Cast(
             this=exp.Paren(
@@ -747,7 +753,7 @@ def random(expression: exp.Expression) -> exp.Expression:
         # (not max BIGINT (int64) because we don't have enough floating point precision to distinguish seeds)
         # then attach to SELECT as the seed arg
         # (we can't attach it to exp.Rand because it will be rendered in the sql)
-        if rand.this and isinstance(rand.this, exp.Literal):
+        if i == 0 and rand.this and isinstance(rand.this, exp.Literal):
             expression.args["seed"] = f"{rand.this}/2147483647-0.5"
 
     return expression
